@@ -75,13 +75,20 @@ def getE (e : List Rat) (i : Int) : Except Fault Rat :=
     | none => .error .oob
   | none => .error .oob
 
-/-- `while x > e[b + 1]: b += 1` — the read `e[b + 1]` resolves exactly when `b + 1 < len(e)`
-(`idx e.length (b+1) = ok (b+1)`, lemma `getE_succ`) and is a fault otherwise. -/
+/-- `while x > e[b + 1]: b += 1` with `fuel` iterations allowed — the read `e[b + 1]` resolves exactly
+when `b + 1 < len(e)` (`idx e.length (b+1) = ok (b+1)`, lemma `getE_succ`) and is a fault otherwise. -/
+def searchAux (e : List Rat) (x : Rat) : (fuel b : Nat) → Except Fault Nat
+  | 0, _ => .error .oob
+  | fuel + 1, b =>
+    if h : b + 1 < e.length then
+      if e[b + 1] < x then searchAux e x fuel (b + 1) else .ok b
+    else .error .oob
+
+/-- the bin search from the carried `b`.  The loop can advance at most `len(e) - b` times before its
+read leaves the array, so that much fuel never runs out early (lemma `search_unfold`: `search`
+satisfies the plain `while` equation). -/
 def search (e : List Rat) (x : Rat) (b : Nat) : Except Fault Nat :=
-  if h : b + 1 < e.length then
-    if e[b + 1] < x then search e x (b + 1) else .ok b
-  else .error .oob
-termination_by e.length - b
+  searchAux e x (e.length - b) b
 
 /-- mesh shape `weights.shape` -/
 structure Shape where
@@ -395,9 +402,13 @@ def clsKmu (ek em : List Rat) (a b c : Int) : Option (Nat × Nat) :=
 /-- `(k_perp, pi)` classification of the full-mesh mode `(a, b, c)`: `k_perp²` classified by the `k`
 edges, `kz²` in range iff `kz² < pi_last`, bin the least `t` with `kz² ≤ pi_{t+1}` -/
 def clsKppi (ek ep : List Rat) (a b c : Int) : Option (Nat × Nat) :=
-  match classify ek ((sq a + sq b : Nat) : Rat), ep.getLast? with
-  | some bk, some pl => if ((sq c : Nat) : Rat) < pl then some (bk, lead ((sq c : Nat) : Rat) ep.tail) else none
-  | _, _ => none
+  match classify ek ((sq a + sq b : Nat) : Rat) with
+  | some bk =>
+    match ep.getLast? with
+    | some pl =>
+      if ((sq c : Nat) : Rat) < pl then some (bk, lead ((sq c : Nat) : Rat) ep.tail) else none
+    | none => none
+  | none => none
 
 /-- sum over the full mesh (all `n³` triples of `fftfreq` frequencies) -/
 def fullSumNat (n : Nat) (g : Int → Int → Int → Nat) : Nat :=
